@@ -37,7 +37,48 @@ def base_overlay(harness_dirs, extra=None):
     return ov
 
 
-def run_engine(work, overlay, jobs, patterns, solver="z3new", qtimeout=60000, workers=None, tag="sym"):
+def cross_check(xdir, tier):
+    """Re-asks the sampled queries to z3 4.8.12 and cvc5 1.0; returns (checked, agreed, skipped, disagreements)."""
+    files = sorted(glob.glob(os.path.join(xdir, "*.smt2")))
+    limit = 40 if tier == "quick" else 400
+    if len(files) > limit:
+        step = len(files) / float(limit)
+        files = [files[int(i * step)] for i in range(limit)]
+    checked = agreed = skipped = 0
+    bad = []
+    from concurrent.futures import ThreadPoolExecutor
+    def one(f):
+        want = "unsat" if f.endswith("_unsat.smt2") else "sat"
+        res = {}
+        for name, cmd in (("z3-4.8.12", ["/usr/bin/z3", "-smt2", "-T:20", f]), ("cvc5-1.0", ["cvc5", "--lang=smt2", "--tlimit=20000", f])):
+            text = open(f).read()
+            tmp = f + "." + name + ".q"
+            open(tmp, "w").write(text)
+            cmd[-1] = tmp
+            try:
+                r = subprocess.run(cmd, capture_output=True, text=True, timeout=40)
+                out = r.stdout.strip().split("\n")[0] if r.stdout.strip() else ""
+                if "error" in r.stdout:
+                    out = "error"
+            except subprocess.TimeoutExpired:
+                out = "timeout"
+            res[name] = out
+            os.remove(tmp)
+        return f, want, res
+    with ThreadPoolExecutor(max_workers=NCPU) as ex:
+        for f, want, res in ex.map(one, files):
+            for name, out in res.items():
+                checked += 1
+                if out == want:
+                    agreed += 1
+                elif out in ("sat", "unsat"):
+                    bad.append(dict(file=os.path.basename(f), primary=want, solver=name, answer=out))
+                else:
+                    skipped += 1
+    return dict(queries_sampled=len(files), answers_checked=checked, agreed=agreed, no_answer=skipped, disagreements=bad)
+
+
+def run_engine(work, overlay, jobs, patterns, solver="z3new", qtimeout=60000, workers=None, tag="sym", xdir=None):
     ovf = os.path.join(work, tag + "_overlay.json")
     jf = os.path.join(work, tag + "_jobs.json")
     of = os.path.join(work, tag + "_out.json")
@@ -46,6 +87,9 @@ def run_engine(work, overlay, jobs, patterns, solver="z3new", qtimeout=60000, wo
     json.dump(jobs, open(jf, "w"))
     cmd = [ENGINE, "-repo", REPO, "-overlay", ovf, "-jobs", jf, "-out", of, "-workers", str(workers or NCPU),
            "-solver", solver, "-qtimeout", str(qtimeout), "-patterns", patterns]
+    if xdir:
+        os.makedirs(xdir, exist_ok=True)
+        cmd += ["-xdir", xdir, "-xevery", os.environ.get("VERIF_XEVERY", "25")]
     t0 = time.time()
     r = subprocess.run(cmd, env=GOENV, capture_output=True, text=True)
     if r.returncode != 0 or not os.path.exists(of):
@@ -183,9 +227,10 @@ def do_check(prop, mod, tier, seed, work, only=None):
     diff_mismatch = []
     totals = dict(paths=0, steps=0, queries=0, sat=0, unsat=0, unknown=0, solver_cpu_s=0.0, pruned=0, nontrivial=0)
     funcs_encoded = set()
+    xtotal = {}
     samples = []
     model_validation = None
-    replay_dir = os.path.join(VERIF, "replays")
+    replay_dir = os.environ.get("VERIF_REPLAY_DIR", os.path.join(VERIF, "replays"))
     os.makedirs(replay_dir, exist_ok=True)
 
     for s in suites:
@@ -201,10 +246,18 @@ def do_check(prop, mod, tier, seed, work, only=None):
             j.setdefault("timeout_s", s.get("job_timeout_s", 600 if tier == "quick" else 3000))
             j.setdefault("nsamples", 4 if tier == "quick" else 8)
         log("[%s/%s] %d jobs, tier %s" % (prop, s["name"], len(jobs), tier))
-        res = run_engine(work, ov, jobs, s["patterns"], qtimeout=s.get("qtimeout", 60000 if tier == "quick" else 300000), tag=s["name"])
+        xdir = os.path.join(work, "xcheck_" + s["name"])
+        res = run_engine(work, ov, jobs, s["patterns"], qtimeout=s.get("qtimeout", 60000 if tier == "quick" else 300000), tag=s["name"], xdir=xdir)
         if "error" in res:
             status = "inconclusive"; reasons.append("suite %s: engine failed: %s" % (s["name"], res["error"][-1500:]))
             continue
+        xc = cross_check(xdir, tier)
+        for k in ("queries_sampled", "answers_checked", "agreed", "no_answer"):
+            xtotal[k] = xtotal.get(k, 0) + xc[k]
+        if xc["disagreements"]:
+            status = "inconclusive"
+            reasons.append("solver disagreement on %d sampled quer(y/ies): %s" % (len(xc["disagreements"]), json.dumps(xc["disagreements"][:3])))
+            xtotal.setdefault("disagreements", []).extend(xc["disagreements"][:5])
         for k in ("queries", "sat", "unsat", "unknown"):
             totals[k] += res.get(k, 0)
         totals["solver_cpu_s"] += res.get("solver_cpu_s", 0)
@@ -352,7 +405,8 @@ def do_check(prop, mod, tier, seed, work, only=None):
             outside_claim=meta.get("outside", []),
             functions_encoded=meta.get("functions", []),
             solver=dict(primary="z3 5.1.0 (z3-new -in, QF_BV, incremental)", queries=totals["queries"], sat=totals["sat"],
-                        unsat=totals["unsat"], unknown=totals["unknown"], solver_cpu_s=round(totals["solver_cpu_s"], 2)),
+                        unsat=totals["unsat"], unknown=totals["unknown"], solver_cpu_s=round(totals["solver_cpu_s"], 2),
+                        cross_check=dict(xtotal, note="a sample of the primary solver's sat/unsat answers re-asked to z3 4.8.12 and cvc5 1.0 as standalone QF_BV problems")),
             paths_pruned_or_infeasible=totals["pruned"],
             jobs=all_jobs,
             status=status, reasons=reasons[:20],
@@ -364,7 +418,8 @@ def do_check(prop, mod, tier, seed, work, only=None):
         wall_s=round(wall, 2),
         violations=len(violations),
     )
-    os.makedirs(os.path.join(VERIF, "evidence"), exist_ok=True)
-    json.dump(ev, open(os.path.join(VERIF, "evidence", prop + ".json"), "w"), indent=1)
+    evdir = os.environ.get("VERIF_EVIDENCE_DIR", os.path.join(VERIF, "evidence"))
+    os.makedirs(evdir, exist_ok=True)
+    json.dump(ev, open(os.path.join(evdir, prop + ".json"), "w"), indent=1)
     log("[%s] status=%s rc=%d paths=%d queries=%d wall=%.1fs" % (prop, status, rc, totals["paths"], totals["queries"], wall))
     return rc
